@@ -899,7 +899,17 @@ def run(ctx):
                     ps = props_of(fld, extra)
                     ctx.ob(ps, 'RF3-H1', f, site, None)
                     chains = sorted(set(' <- '.join(ch) for ch in fails))
-                    ctx.find(ps, 'RF3-H1', f, key, m.loc(f, node.line),
+                    # identity of the finding: a store inside a helper extracted from a known function belongs to that function
+                    # (known findings are keyed by function; the extraction must not turn a recorded defect into a "new" one)
+                    f_id = f
+                    hops = 0
+                    while m.is_new_helper(f_id) and hops < 3:
+                        cs_ = sorted(set(c_[0] for c_ in m.call_sites(f_id)))
+                        if len(cs_) != 1:
+                            break
+                        f_id = cs_[0]
+                        hops += 1
+                    ctx.find(ps, 'RF3-H1', f_id, key, m.loc(f, node.line),
                              'store to timer handle %s (%s) although the handle may be armed on entry and no '
                              'caller on these chains releases it first: %s'
                              % (p, show(n), '; '.join(chains[:6])), witness=chains, note=not ps)
